@@ -54,7 +54,7 @@ func genFastqRec(thorough, allowBig bool) *rapid.Generator[FastqRec] {
 		n := length.Draw(t, "len")
 		fixed := rapid.Just(n)
 		return FastqRec{
-			Name:  fastqAlpha.Bytes(0, 12).Draw(t, "name"),
+			Name:  fastqAlpha.Field(12, 120, 5000).Draw(t, "name"),
 			Seq:   fastqAlpha.BlobOf(fixed, 200).Draw(t, "seq"),
 			Quals: fastqAlpha.BlobOf(fixed, 200).Draw(t, "quals"),
 		}
